@@ -431,10 +431,19 @@ func (m *Machine) trySend(th *Thread, c *ChanObj, v Value) bool {
 		m.removeWaiter(r.th)
 		r.th.wake = &wakeInfo{caseIdx: r.caseIdx, val: v, ok: true, vc: append([]int(nil), th.vc...)}
 		m.wakeThread(r.th)
+		if c.cap == 0 {
+			// unbuffered: the receive is synchronized before the completion of the send as well
+			th.vc = m.vcJoin(th.vc, r.th.vc)
+		}
 		m.vcTick(th)
 		return true
 	}
 	if len(c.buf) < c.cap {
+		// the k-th receive is synchronized before the completion of the (k+C)-th send
+		if len(c.freed) > 0 {
+			th.vc = m.vcJoin(th.vc, c.freed[0])
+			c.freed = c.freed[1:]
+		}
 		c.buf = append(c.buf, chanItem{v: v, vc: append([]int(nil), th.vc...)})
 		m.vcTick(th)
 		return true
@@ -463,17 +472,24 @@ func (m *Machine) tryRecv(th *Thread, c *ChanObj) (Value, bool, bool) {
 		if len(w.sendq) > 0 {
 			s := w.sendq[0]
 			m.removeWaiter(s.th)
-			c.buf = append(c.buf, chanItem{v: s.val, vc: append([]int(nil), s.th.vc...)})
-			s.th.wake = &wakeInfo{caseIdx: s.caseIdx, ok: true}
+			// the blocked send completes now, after this receive
+			svc := m.vcJoin(s.th.vc, th.vc)
+			c.buf = append(c.buf, chanItem{v: s.val, vc: svc})
+			s.th.wake = &wakeInfo{caseIdx: s.caseIdx, ok: true, vc: append([]int(nil), th.vc...)}
 			m.wakeThread(s.th)
+		} else {
+			c.freed = append(c.freed, append([]int(nil), th.vc...))
 		}
+		m.vcTick(th)
 		return it.v, true, true
 	}
 	if len(w.sendq) > 0 {
 		s := w.sendq[0]
 		m.removeWaiter(s.th)
-		th.vc = m.vcJoin(th.vc, s.th.vc)
-		s.th.wake = &wakeInfo{caseIdx: s.caseIdx, ok: true}
+		svc := append([]int(nil), s.th.vc...)
+		s.th.wake = &wakeInfo{caseIdx: s.caseIdx, ok: true, vc: append([]int(nil), th.vc...)}
+		th.vc = m.vcJoin(th.vc, svc)
+		m.vcTick(th)
 		m.wakeThread(s.th)
 		return s.val, true, true
 	}
@@ -515,6 +531,8 @@ func (m *Machine) execSend(th *Thread, fr *Frame, x *ssa.Send) bool {
 		if wk.caseIdx == -2 {
 			panic(&goPanic{kind: "send on closed channel"})
 		}
+		th.vc = m.vcJoin(th.vc, wk.vc)
+		m.vcTick(th)
 		fr.pc++
 		return false
 	}
